@@ -1190,7 +1190,27 @@ def _np_cross(a, b, axis=None, **kw):
     return XArray((3,), [x[1] * y[2] - x[2] * y[1], x[2] * y[0] - x[0] * y[2], x[0] * y[1] - x[1] * y[0]])
 
 
+def _np_dot_nd(a, b):
+    """np.dot for N-D operands: sum over the last axis of a and the second-to-last of b"""
+    a, b = XArray.from_nested(a), XArray.from_nested(b)
+    if a.ndim <= 2 and b.ndim <= 2:
+        return None
+    letters = "abcdefghijklmnop"
+    ia = letters[: a.ndim]
+    rest = letters[a.ndim: a.ndim + b.ndim - 1]
+    if b.ndim == 1:
+        ib = ia[-1]
+        out = ia[:-1]
+    else:
+        ib = rest[: b.ndim - 2] + ia[-1] + rest[b.ndim - 2:]
+        out = ia[:-1] + rest
+    return x_einsum(f"{ia},{ib}->{out}", a, b)
+
+
 def _np_dot(a, b):
+    r = _np_dot_nd(a, b)
+    if r is not None:
+        return r
     return XArray.from_nested(a) @ XArray.from_nested(b)
 
 
